@@ -79,6 +79,72 @@ def close(got, want, quantum):
         return False
 
 
+def _fill_obs(f):
+    t = f.type
+    return (t, f.fore_color.rgb if t == 1 and f.fore_color.type == 1 else None)
+
+
+# read-only observables of an object's PARTS (its fill, its line, its text, its neighbours in a collection): assigning one
+# of the object's own properties must leave them as they were - read through a newly obtained proxy before and after
+OBSERVE = {
+    "cell": [("fill", lambda o: _fill_obs(o.fill)), ("text", lambda o: o.text), ("span", lambda o: (o.is_merge_origin, o.is_spanned))],
+    "shape": [("fill", lambda o: _fill_obs(o.fill) if hasattr(o, "fill") else None),
+              ("line", lambda o: (o.line.width, o.line.dash_style, o.line.fill.type) if hasattr(o, "line") else None),
+              ("text", lambda o: o.text_frame.text if getattr(o, "has_text_frame", False) else None),
+              ("shape_type", lambda o: o.shape_type), ("shape_id", lambda o: o.shape_id)],
+    "connector": [("line", lambda o: (o.line.width, o.line.dash_style, o.line.fill.type)), ("name", lambda o: o.name), ("rotation", lambda o: o.rotation)],
+    "picture": [("line", lambda o: (o.line.width, o.line.fill.type)), ("geometry", lambda o: (o.left, o.top, o.width, o.height)),
+                ("image", lambda o: o.image.sha1)],
+    "text_frame": [("text", lambda o: o.text), ("paragraph formats", lambda o: [(q.alignment, q.level) for q in o.paragraphs]),
+                   ("run fonts", lambda o: [(r.font.size, r.font.bold, r.font.name) for q in o.paragraphs for r in q.runs])],
+    "paragraph": [("text", lambda o: o.text), ("run fonts", lambda o: [(r.font.size, r.font.bold, r.font.name) for r in o.runs]),
+                  ("font", lambda o: (o.font.size, o.font.bold))],
+    "font": [("color", lambda o: (o.color.type, o.color.rgb if o.color.type == 1 else None)), ("fill", lambda o: o.fill.type)],
+    "line": [("fill", lambda o: o.fill.type)],
+    "table": [("texts", lambda o: [[c.text for c in r.cells] for r in o.rows]), ("sizes", lambda o: ([r.height for r in o.rows], [c.width for c in o.columns])),
+              ("fills", lambda o: [[_fill_obs(c.fill) for c in r.cells] for r in o.rows])],
+    "row": [("cells", lambda o: [(c.text, _fill_obs(c.fill), c.margin_left, c.vertical_anchor) for c in o.cells])],
+    "chart": [("series", lambda o: [(s_.name, list(s_.values)) for pl in o.plots for s_ in pl.series]), ("type", lambda o: o.chart_type),
+              ("font", lambda o: (o.font.size, o.font.bold))],
+    "axis": [("line", lambda o: (o.format.line.width, o.format.line.fill.type)), ("tick labels", lambda o: (o.tick_labels.font.size, o.tick_labels.number_format, o.tick_labels.offset if hasattr(o.tick_labels, "offset") else None))],
+    "valaxis": [("line", lambda o: (o.format.line.width, o.format.line.fill.type)), ("gridlines", lambda o: (o.has_major_gridlines, o.has_minor_gridlines)),
+                ("scale", lambda o: (o.maximum_scale, o.minimum_scale))],
+    "ticklabels": [("font", lambda o: (o.font.size, o.font.bold, o.font.name))],
+    "legend": [("font", lambda o: (o.font.size, o.font.bold))],
+    "plot": [("series", lambda o: [(s_.name, list(s_.values)) for s_ in o.series]), ("categories", lambda o: list(o.categories))],
+    "barplot": [("series", lambda o: [(s_.name, list(s_.values), s_.format.fill.type) for s_ in o.series])],
+    "datalabels": [("font", lambda o: (o.font.size, o.font.bold))],
+    "marker": [("format", lambda o: (o.format.fill.type, o.format.line.width))],
+    "barseries": [("format", lambda o: (o.format.fill.type, o.format.line.width)), ("data", lambda o: (o.name, list(o.values)))],
+    "lineseries": [("format", lambda o: (o.format.line.width, o.format.line.fill.type)), ("marker", lambda o: (o.marker.size, o.marker.style)),
+                   ("data", lambda o: (o.name, list(o.values)))],
+    "slide": [("shapes", lambda o: [(x.shape_id, x.name) for x in o.shapes]), ("layout", lambda o: o.slide_layout.name)],
+    "prs": [("slides", lambda o: [x.slide_id for x in o.slides])],
+}
+# legitimate effects of a property on the parts observed above
+OBSERVE_COUPLED = {("text_frame", "text"): {"text", "paragraph formats", "run fonts"}, ("paragraph", "text"): {"text", "run fonts"},
+                   ("cell", "text"): {"text"}, ("shape", "name"): set(), ("slide", "name"): set(),
+                   ("valaxis", "crosses"): set(), ("chart", "has_legend"): set()}
+
+
+def observe(prs, path, kind, skip):
+    try:
+        o = eval(path, {"prs": prs})  # noqa: S307 - paths are produced by harness/oplab.py
+    except Exception:  # noqa
+        return None
+    if o is None:
+        return None
+    out = {}
+    for lb, fn in OBSERVE.get(kind, ()):
+        if lb in skip:
+            continue
+        try:
+            out[lb] = ("v", fn(o))
+        except Exception as e:  # noqa
+            out[lb] = ("raises", type(e).__name__)
+    return out
+
+
 def refetch(ctx, prs, label, path, name, rd, case):
     """the value lives in the document, not in the proxy object: a newly obtained proxy reads the same"""
     try:
@@ -116,8 +182,15 @@ def build_deck():
     tb = sh.add_textbox(Inches(1), Inches(3), Inches(2), Inches(1)); tb.text_frame.text = "box"
     sh.add_picture(m["images"][0], Inches(5), Inches(1))
     sh.add_connector(MSO_CONNECTOR.ELBOW, Inches(1), Inches(5), Inches(3), Inches(6))
+    # the other three orientations (flipH / flipV set in the XML)
+    sh.add_connector(MSO_CONNECTOR.STRAIGHT, Inches(3), Inches(6), Inches(1), Inches(5))
+    sh.add_connector(MSO_CONNECTOR.STRAIGHT, Inches(1), Inches(6), Inches(3), Inches(5))
+    sh.add_connector(MSO_CONNECTOR.CURVE, Inches(3), Inches(5), Inches(1), Inches(6))
     grp = sh.add_group_shape(); grp.shapes.add_shape(MSO_SHAPE.RECTANGLE, Inches(6), Inches(3), Inches(1), Inches(1))
-    sh.add_table(3, 3, Inches(1), Inches(4), Inches(4), Inches(1.5))
+    tbl = sh.add_table(3, 3, Inches(1), Inches(4), Inches(4), Inches(1.5)).table
+    # cells whose a:tcPr holds a fill and no attribute; a fill next to a margin
+    c = tbl.cell(0, 1); c.fill.solid(); c.fill.fore_color.rgb = oplab.d_rgb(random.Random(2))
+    c = tbl.cell(2, 2); c.fill.solid(); c.fill.fore_color.rgb = oplab.d_rgb(random.Random(3)); c.margin_top = Inches(0.1)
     s2 = prs.slides.add_slide(prs.slide_layouts[6])
     cd = CategoryChartData(); cd.categories = ["a", "b", "c"]; cd.add_series("S1", (1, 2, 3)); cd.add_series("S2", (3, 2, 1))
     for i, ct in enumerate([XL_CHART_TYPE.COLUMN_CLUSTERED, XL_CHART_TYPE.LINE_MARKERS, XL_CHART_TYPE.PIE, XL_CHART_TYPE.AREA, XL_CHART_TYPE.RADAR]):
@@ -139,7 +212,7 @@ def vclass(p, v, cls):
     return cls
 
 
-def exercise(ctx, prs, label, rng, budget):
+def exercise(ctx, prs, label, rng, budget, none_first=False):
     """assign properties on the objects of one deck; -> {(path, name): reading} for the re-open comparison"""
     table = oplab.prop_table()
     by_kind = {}
@@ -154,7 +227,12 @@ def exercise(ctx, prs, label, rng, budget):
                 todo.append((p, obj, path))
     # the same property of the same object is assigned several times in a history (Length then float, None then a value,
     # one enum member then another): a setter that is right on a fresh element may be wrong on the one it left behind
-    todo = todo + rng.sample(todo, len(todo) // 2)
+    if none_first:
+        # systematic: None assigned to every property that documents it, on every object, while the object is still as it
+        # was built (nothing explicit to remove: the assignment must be a no-op on everything else the element holds)
+        todo = [t for t in todo if t[0].none_ok]
+    else:
+        todo = todo + rng.sample(todo, len(todo) // 2)
     rng.shuffle(todo)
     # text setters replace paragraphs and runs (objects obtained earlier then describe detached elements): they come last
     todo = todo[:budget]
@@ -173,7 +251,7 @@ def exercise(ctx, prs, label, rng, budget):
         obj = live
         sibs = [q.name for q in by_kind[p.kind] if q.name != p.name and q.name not in COUPLED.get((p.kind, p.name), set())
                 and not (p.name in ("text",) or q.name in ("text",))]
-        r = rng.random()
+        r = 0.0 if none_first else rng.random()
         if r < 0.15 and p.none_ok:
             v, cls = None, "none"
         elif r < 0.3 and p.bad is not None:
@@ -182,6 +260,8 @@ def exercise(ctx, prs, label, rng, budget):
             v, cls = p.gen(rng), "in"
         if type(obj).__name__ == "Connector" and isinstance(v, int) and not isinstance(v, bool) and abs(v) > 2**40:
             v = type(v)(v % 2**31) if cls == "in" else v   # begin/end points are sums of offset and extent: keep the sums inside the type
+        obs_skip = OBSERVE_COUPLED.get((p.kind, p.name), set())
+        obs_before = observe(prs, path, p.kind, obs_skip)
         before_self = reading(obj, p.name)
         before = {n: reading(obj, n) for n in sibs}
         case = {"deck": label, "object": path, "property": p.name, "value": repr(v)[:80], "class": cls}
@@ -239,6 +319,13 @@ def exercise(ctx, prs, label, rng, budget):
                 recorded[(path, p.name)] = after_self
                 if p.name != "text":
                     refetch(ctx, prs, label, path, p.name, after_self, case)
+        obs_after = observe(prs, path, p.kind, obs_skip) if obs_before is not None else None
+        if obs_before and obs_after:
+            ctx.count("parts-observed")
+            for lb in obs_before:
+                if obs_after.get(lb) != obs_before[lb]:
+                    ctx.fail(f"independence:{p.kind}.{p.name}->({lb})", f"{label} {path}: assigning {p.name} = {v!r} ({outcome}) changed the object's {lb} "
+                             f"from {str(obs_before[lb][1])[:160]!r} to {str(obs_after.get(lb, ('', None))[1])[:160]!r} (read through newly obtained objects)", case)
         after = {n: reading(obj, n) for n in sibs}
         PAIR = {"left": "top", "top": "left", "width": "height", "height": "width"}
         for n in sibs:
@@ -502,6 +589,9 @@ def correspond(ctx):
             label += f"(thinned, {n} removed)"
         rec = exercise(ctx, prs, label, rng, 500 if ctx.quick else 1500)
         reopen_check(ctx, prs, label, rec)
+    prs = build_deck()
+    rec = exercise(ctx, prs, "generated-deck(None first)", rng, 10**6, none_first=True)
+    reopen_check(ctx, prs, "generated-deck(None first)", rec)
     decks = common.corpus_decks()
     if ctx.quick:
         decks = rng.sample(decks, 14)
